@@ -104,6 +104,7 @@ func errNilOfCall(pred func(ssa.CallInstruction) bool) ir.Guard {
 }
 
 func runC12(c *core.Ctx) {
+	checkRecoverAfterLoad(c)
 	checkReplayWritesWhatSubmitWrites(c)
 	sb := c.Fn(pkLedger, "LedgerStoreImp.submitBlock")
 	if sb != nil {
@@ -122,18 +123,7 @@ func runC12(c *core.Ctx) {
 				release()
 			}
 		}
-		for i := 0; i+1 < len(commits); i++ {
-			a, b := commits[i], commits[i+1]
-			precedes(c, "C12.commit-order", sb, a.desc, storeCall(a.field, "CommitTo"), b.desc, storeCall(b.field, "CommitTo"), nil)
-			{
-				host, sinks, release := laterSinks(sb, storeCall(a.field, "CommitTo"), storeCall(b.field, "CommitTo"), b.desc)
-				if host != sb {
-					c.Attribute(host, sb)
-				}
-				eng.Dominates(c, "C12.commit-order", host, eng.NamedGuard{Name: a.desc + " err==nil", G: errNilOfCall(storeCall(a.field, "CommitTo"))}, sinks, b.desc, nil)
-				release()
-			}
-		}
+		checkCommitOrder(c, "C12.commit-order")
 		scb := ir.Calls(sb, methodCall("setCurrentBlock"))
 		c.Floor("setCurrentBlock in submitBlock", len(scb), 1)
 		eng.Dominates(c, "C12.commit-order", sb, eng.NamedGuard{Name: "stateStore.CommitTo err==nil", G: errNilOfCall(storeCall("stateStore", "CommitTo"))},
